@@ -99,3 +99,18 @@ Proof.
   intros H. pose proof type_table as T. rewrite forallb_forall in T. specialize (T (t, f, g) H). simpl in T.
   destruct (go_type t f) as [g'|]; [|discriminate]. apply String.eqb_eq in T. subst. reflexivity.
 Qed.
+
+(** * alias or defined type *)
+Lemma alias_frame_disable_array : forall old d k,
+  k <> KArray -> declared_as_alias old d k = declared_as_alias old false k.
+Proof. intros old d k H. destruct k; try reflexivity. exfalso; apply H; reflexivity. Qed.
+
+Lemma alias_disable_array_defines_arrays : forall old, declared_as_alias old true KArray = false.
+Proof. intros old. unfold declared_as_alias. cbn. apply Bool.andb_false_r. Qed.
+
+Lemma alias_old_aliasing_defines_everything : forall d k, declared_as_alias true d k = false.
+Proof. reflexivity. Qed.
+
+Lemma alias_default : forall k,
+  declared_as_alias false false k = match k with KStruct | KEnum => false | _ => true end.
+Proof. intros k. destruct k; reflexivity. Qed.
